@@ -5,6 +5,8 @@
 package e2checks
 
 import (
+	"time"
+
 	"github.com/arr-ai/arrai/pkg/zzverif/vsched"
 )
 
@@ -21,6 +23,9 @@ type Stats struct {
 	// at points where the running thread is not enabled. Needed where many symmetric worker
 	// goroutines make even the zero-preemption space factorial.
 	Delay bool
+	// Deadline, when set, ends the exploration like the execution cap does (Capped is set and reported):
+	// an internal budget never raises an alarm, it only makes the evidence say "not exhaustive".
+	Deadline time.Time
 }
 
 func preemptionsBefore(x *vsched.Exec, i int, delay bool) int {
@@ -44,6 +49,10 @@ func Explore(run func(prefix []int) *vsched.Exec, bound int, maxExecs int64, st 
 	var rec func(prefix []int)
 	rec = func(prefix []int) {
 		if maxExecs > 0 && st.Execs >= maxExecs {
+			st.Capped = true
+			return
+		}
+		if !st.Deadline.IsZero() && st.Execs&63 == 0 && time.Now().After(st.Deadline) {
 			st.Capped = true
 			return
 		}
